@@ -26,13 +26,17 @@ claims = {
   note=TB + " Line/column arithmetic of jsight-schema-core is an assumed contract (abstract functions lineOf/colOf).",
   ref="§6 C07", category="other"),
  "C03": dict(
-  text="Proof, per fault class and per enforcing function, of 'if the fault condition holds on entry the result is an error located at the directive's keyword and the "
-       "guarded state is unchanged': duplicate tag/server (Catalog.AddTag/AddServer), repeated JSIGHT/INFO/Title/Version/Description/BaseUrl (AddJSight, AddInfo, AddTitle, "
-       "AddVersion, AddDescriptionToInfo, AddBaseURL), duplicate macro (addMacro), undefined macro (processPasteDirective), missing parameter / forbidden annotation / "
-       "unsupported version (core.addJSight, addTitle, addVersion, addServer), JSIGHT not first (buildCatalog), incorrect context (processContext, shared with C11); the "
-       "generated ordered maps are verified against an abstract view (Set keeps keys distinct and changes only the given key). Not under contract yet: types, enums, "
-       "interactions, OperationId, paths, tags, request/response setters; composition over a whole document is not decided.",
-  note=TB + " addDirectives and the handler dispatch are assumed (trusted) contracts.", ref="§6 C03"),
+  text="Proof, per fault class and per enforcing function, of 'if the fault condition holds on entry the result is an error located at the directive and the guarded state "
+       "is unchanged'. Handlers of core (22 functions): missing required parameter, forbidden annotation, empty body, duplicate OperationId / Protocol, Type together with "
+       "SchemaNotation, repeated JSIGHT/INFO/Title/Version, JSIGHT not first, duplicate / undefined macro, incorrect context (shared with C11); every error a handler returns "
+       "is located at its directive (keyword, or in its body's file); a catalog setter that reports a failure makes the handler return an error (ghost counter gFailed). "
+       "Catalog setters: duplicate tag/server, repeated JSIGHT/INFO/Title/Version/Description/BaseUrl, and write-once clauses proved heap-wide - a Query, method Description, "
+       "Request, request body, request headers, JSON-RPC Params/Result, OperationId that is set is never overwritten, an existing interaction, user type or enum entry is never "
+       "replaced; the generated ordered maps are verified against an abstract view. A failed obligation is replayed on 34 single-fault documents calibrated on the unchanged "
+       "tree (thorough runs them always, as a bounded cross-check). Not decided: undefined type references (inside jsight-schema-core), path-parameter faults, response "
+       "body/headers, the composition over a whole document.",
+  note=TB + " addDirectives (the dispatch walk), checkSimilarPaths, PathParameters, the interaction-id constructors and the schema constructors are assumed (trusted) contracts; handler and setter "
+       "units marked assumesafe are verified for these postconditions only (panics inside them are assumed away, listed per run).", ref="§0.2, §6 C03"),
  "C05": dict(
   text="Proof of the representation invariant of the generated ordered maps (keys of the order list pairwise distinct and all present in the data map, Set changes exactly "
        "one key) for Tags, Servers, UserTypes, UserRules and Interactions, of the catalog invariant through AddTag/AddServer (names unique, stored value non-nil, tag name equals "
